@@ -7,6 +7,7 @@ mod mfam;
 mod model;
 mod qfam;
 mod refm;
+mod sched;
 mod sup;
 mod tfam;
 mod wfam;
@@ -36,6 +37,7 @@ fn main() {
         "C15" => run_check(&mfam::C15, &args),
         "C17" => run_check(&mfam::C17, &args),
         "C10" => run_check(&xfam::C10, &args),
+        "C11" => run_check(&sched::C11, &args),
         "C06" => run_check(&wfam::C06, &args),
         "C07" => run_check(&wfam::C07, &args),
         "C08" => run_check(&wfam::C08, &args),
